@@ -109,6 +109,10 @@ func cloneValue(src interface{}, dst interface{}) {
 				// we set to zero exported fields in order to deep copy them
 				dstField.Set(reflect.Zero(srcField.Type()))
 				cloneValue(srcField.Interface(), dstField.Addr().Interface())
+			} else if structField.Anonymous && srcField.Kind() == reflect.Struct {
+				// exported fields promoted by an embedded structure of
+				// a non exported type are serialized as any other
+				clonePromoted(srcField, dstField)
 			}
 		}
 		dstVal.Elem().Set(tmp)
@@ -119,6 +123,23 @@ func cloneValue(src interface{}, dst interface{}) {
 			dst.Set(reflect.Zero(srcVal.Type()))
 		}
 		dstVal.Elem().Set(srcVal)
+	}
+}
+
+// clonePromoted deep copies the exported fields of an embedded structure
+// of a non exported type (dst being already a shallow copy of src)
+func clonePromoted(src, dst reflect.Value) {
+	srcType := src.Type()
+	for i := 0; i < src.NumField(); i++ {
+		structField := srcType.Field(i)
+		srcField := src.Field(i)
+		dstField := dst.Field(i)
+		if structField.IsExported() {
+			dstField.Set(reflect.Zero(srcField.Type()))
+			cloneValue(srcField.Interface(), dstField.Addr().Interface())
+		} else if structField.Anonymous && srcField.Kind() == reflect.Struct {
+			clonePromoted(srcField, dstField)
+		}
 	}
 }
 
